@@ -51,10 +51,10 @@ FinMarkers == {"exitinfo", "aborted", "oom"}
 (*  sync_generation _synchronize tests running/<instance> and pops the      *)
 (*                  cache entry without asking WHICH container of that      *)
 (*                  instance the link / the entry belongs to                *)
-(*  stale_deleted   _on_deleted terminates whatever runs under the name,    *)
-(*                  also the container of the entry that is in the cache    *)
-(*                  now (a delete event that is older than that entry)      *)
-AllDefects == {"cleanup_name", "sync_generation", "stale_deleted"}
+(*  created_done    _on_created configures the entry without the tests      *)
+(*                  _synchronize makes: also when its container exists      *)
+(*                  already and has finished or was handed to cleanup       *)
+AllDefects == {"cleanup_name", "sync_generation", "created_done"}
 
 Cont(a, g) == [i |-> a, g |-> g]
 NameI(a) == [k |-> "i", i |-> a, g |-> 0]
@@ -199,6 +199,15 @@ PermSeqs(S) == IF S = {} THEN {<<>>}
 
 Pop(s) == [s EXCEPT !.pending = Tail(@)]
 
+(* the container of the entry cached for a exists already and has finished  *)
+(* or is in cleanup (under either name)                                     *)
+IsDone(s, a) == /\ a \in DOMAIN s.cache
+                /\ LET c == Cont(a, s.cache[a]) IN
+                   /\ Live(s, c)
+                   /\ \/ Finished(s, c)
+                      \/ NameC(c) \in DOMAIN s.cleanup
+                      \/ NameI(a) \in DOMAIN s.cleanup /\ s.cleanup[NameI(a)] = c
+
 (* the three watcher callbacks; the event is the head of s.pending          *)
 IsFirstSync(s, nm) == nm = READY /\ ~s.active
 DoOnCreated(s, nm, ords, D) ==
@@ -207,6 +216,7 @@ DoOnCreated(s, nm, ords, D) ==
   THEN IF p.active THEN p ELSE Sync([p EXCEPT !.active = TRUE], ords, D)
   ELSE IF ~p.active THEN p
   ELSE IF nm \in DOMAIN p.running THEN p          \* os.path.islink
+  ELSE IF "created_done" \notin D /\ IsDone(p, nm) THEN p
   ELSE Configure(p, nm)
 
 DoOnModified(s, nm, ords, D) ==
@@ -215,13 +225,10 @@ DoOnModified(s, nm, ords, D) ==
   THEN IF p.active THEN p ELSE Sync([p EXCEPT !.active = TRUE], ords, D)
   ELSE p
 
-IsCurrent(s, a) == /\ a \in DOMAIN s.running /\ a \in DOMAIN s.cache
-                   /\ s.running[a] = Cont(a, s.cache[a])
 DoOnDeleted(s, nm, D) ==
   LET p == Pop(s) IN
   IF nm = READY THEN [p EXCEPT !.active = FALSE]
   ELSE IF ~p.active THEN p
-  ELSE IF "stale_deleted" \notin D /\ IsCurrent(p, nm) THEN p
   ELSE Terminate(p, nm)
 
 -----------------------------------------------------------------------------
@@ -315,7 +322,8 @@ ReadyOff == /\ Env /\ st.ready /\ st' = DoReadyOff(st) /\ n' = Tick
 ContainerFinishes(c, m) == /\ Env /\ CanFinish(st, c)
                            /\ st' = DoFinish(st, c, m) /\ n' = Tick
 MonitorCleanup(c) == /\ Idle /\ c \in st.tomb
-                     /\ LateMonitor \/ c.i \notin DOMAIN st.running \/ st.running[c.i] = c
+                     /\ IF c.i \in DOMAIN st.running /\ ~LateMonitor
+                        THEN st.running[c.i] = c ELSE TRUE
                      /\ st' = DoMonitor(st, c) /\ UNCHANGED n
 CleanupCompletes(nm) == /\ Idle /\ nm \in DOMAIN st.cleanup
                         /\ st' = DoCleanupDone(st, nm) /\ UNCHANGED n
@@ -338,12 +346,15 @@ OnDeleted(nm) == /\ Idle /\ st.pending # <<>> /\ Head1(st) = Ev("D", nm)
 
 OrdChoices(s) == LET R(a) == PermSeqs(ContGens(s, a)) IN
   {f \in [SyncInsts(s) -> UNION {R(a) : a \in SyncInsts(s)}] : \A a \in SyncInsts(s) : f[a] \in R(a)}
-Synchronize(ords) == /\ n.phase = "sync"
-                     /\ st' = Sync(st, ords, Defects)
-                     /\ n' = [n EXCEPT !.phase = "idle"]
+Synchronize == /\ n.phase = "sync"
+               /\ \E ords \in OrdChoices(st) : st' = Sync(st, ords, Defects)
+               /\ n' = [n EXCEPT !.phase = "idle"]
 
 Names == Instances \cup {READY}
 AllConts == {Cont(a, g) : a \in Instances, g \in 1..MaxGen}
+(* (constant bounds: TLC labels a step with the action and its arguments    *)
+(* only when the quantifier ranges over a constant set)                     *)
+AllLinkNames == {NameI(a) : a \in Instances} \cup {NameC(c) : c \in AllConts}
 
 Next ==
   \/ \E a \in Instances : CacheCreate(a)
@@ -352,12 +363,12 @@ Next ==
   \/ ReadyOff
   \/ \E c \in AllConts, m \in FinMarkers : ContainerFinishes(c, m)
   \/ \E c \in AllConts : MonitorCleanup(c)
-  \/ \E nm \in DOMAIN st.cleanup : CleanupCompletes(nm)
+  \/ \E nm \in AllLinkNames : CleanupCompletes(nm)
   \/ ManagerRestart
   \/ \E nm \in Names : OnCreated(nm)
   \/ \E nm \in Names : OnModified(nm)
   \/ \E nm \in Names : OnDeleted(nm)
-  \/ \E ords \in OrdChoices(st) : Synchronize(ords)
+  \/ Synchronize
 
 Spec == Init /\ [][Next]_vars
 
